@@ -167,6 +167,13 @@ type Gauges struct {
 	MemCap  int  `json:"memCap"`
 	Delta   int  `json:"delta"`
 	Exact   bool `json:"exact"` // every value was an exact multiple of the unit
+	// node / pod counts as exported after listing (-1 = not set in this scan)
+	NAll    int  `json:"nAll"`
+	NCord   int  `json:"nCord"`
+	NUnt    int  `json:"nUnt"`
+	NTaint  int  `json:"nTaint"`
+	NForce  int  `json:"nForce"`
+	NPods   int  `json:"nPods"`
 	PctSet  bool `json:"pctSet"`
 	CpuPct  int  `json:"cpuPct"` // milli-percent
 	MemPct  int  `json:"memPct"`
